@@ -550,6 +550,13 @@ func (s *session) attribute(v *verdict, rerun func() (*session, *verdict)) {
 					f.what += " [same symptom when the session is replayed without sender reports: " + twin.what + "]"
 					continue
 				}
+				switch f.symptom {
+				case "timecode-decreases", "frame-missing", "not-flushed", "recording-split", "file-left-open", "frame-out-of-order":
+				default:
+					// a wrong alignment (av-origin) or anything else is not
+					// what an origin moving forward does
+					continue
+				}
 				f.key = "sender-report-moves-origin"
 				f.what += fmt.Sprintf(" - the session has sender reports after recording began (events audio %v, video %v) and the same session replayed without any sender report does not show this", srOf(s.audio), srOf(s.video))
 				if moved > 2 {
